@@ -1,9 +1,10 @@
 """C15 - matchers change only what they target and never the caller's data."""
 import json
 import core, findings
-from core import World, hx
-from gen import Gen
-from suites import run_suite
+import os
+from core import World, hx, parse_fs
+from gen import Gen, mode_line, cfg_line
+from suites import run_suite, parse_snap
 import docs
 from docs import Doc, flatten, parse_flat, replace_subtree
 
@@ -21,10 +22,29 @@ def set_path(v, fp, newv):
         cur[parts[-1]] = newv
 
 
-def make_world(g, tag):
+def del_path(v, fp):
+    """delete the object member at the flattened path; False when the parent is an array"""
+    parts = [x.replace('~1', '/') for x in fp.split('/')[1:]]
+    cur = v
+    for k in parts[:-1]:
+        cur = cur[int(k)] if isinstance(cur, list) else cur[k]
+    if isinstance(cur, dict) and parts[-1] in cur:
+        del cur[parts[-1]]
+        return True
+    return False
+
+
+def disjoint(a, b):
+    return not (a == b or a.startswith(b + '/') or b.startswith(a + '/'))
+
+
+def build_steps(g):
+    """a document and a matcher sequence with, per matcher, what must come out:
+    (token, [flattened target paths] | None, new value, error expected)"""
     r = g.r
     d = Doc(g)
     steps = []
+    lenient_first = []      # first path of a lenient matcher with several PRESENT paths
     cur = json.loads(json.dumps(d.value))
     for _ in range(r.randint(1, 4)):
         # paths of the document as it is after the earlier matchers of the sequence
@@ -36,39 +56,84 @@ def make_world(g, tag):
             break
         gp, fp, v = r.choice(cand)
         k = r.random()
+        others = [q for q in cand if disjoint(q[1], fp)]
         if k < 0.15:
             # several paths, the leading ones absent and ignored: the present one is still replaced,
             # and the caller's bytes stay untouched
             if docs.go_type(v) and r.random() < 0.5:
-                steps.append((docs.type_matcher(['not.there', gp], docs.go_type(v), False), fp, docs.type_placeholder(v), False))
+                steps.append((docs.type_matcher(['not.there', gp], docs.go_type(v), False), [fp], docs.type_placeholder(v), False))
                 set_path(cur, fp, docs.type_placeholder(v))
             else:
                 ph = r.choice(docs.PLACEHOLDERS)
-                steps.append((docs.any_matcher(['not.there', 'nor.this', gp], ph, False), fp, json.loads(ph), False))
+                steps.append((docs.any_matcher(['not.there', 'nor.this', gp], ph, False), [fp], json.loads(ph), False))
                 set_path(cur, fp, json.loads(ph))
-        elif k < 0.25 and any(q[1].startswith(fp + '/') for q in cand):
+        elif k < 0.30 and others:
+            # ONE matcher, several paths that all exist (disjoint): every one of them is replaced, in this
+            # document and in every later one the same matcher value sees
+            more = [fp_ for fp_ in r.sample(others, min(len(others), r.randint(1, 2)))]
+            chosen = [(gp, fp)]
+            for q in more:
+                if all(disjoint(q[1], c[1]) for c in chosen):
+                    chosen.append((q[0], q[1]))
+            r.shuffle(chosen)
+            ph = r.choice(docs.PLACEHOLDERS)
+            eom = r.random() < 0.4
+            vals = dict((q[1], q[2]) for q in cand)
+            tys = set(docs.go_type(vals[c[1]]) for c in chosen)
+            if len(tys) == 1 and None not in tys and r.random() < 0.4:
+                # Type over several paths holding values of one type
+                ty = tys.pop()
+                ph = json.dumps(docs.type_placeholder(vals[chosen[0][1]]))
+                steps.append((docs.type_matcher([c[0] for c in chosen], ty, eom), [c[1] for c in chosen], json.loads(ph), False))
+            else:
+                steps.append((docs.any_matcher([c[0] for c in chosen], ph, eom), [c[1] for c in chosen], json.loads(ph), False))
+            for c in chosen:
+                set_path(cur, c[1], json.loads(ph))
+            if not eom and len(chosen) > 1:
+                lenient_first.append(chosen[0][1])
+        elif k < 0.38 and any(q[1].startswith(fp + '/') for q in cand):
             # one matcher, a container path followed by a path INSIDE it: after the first replacement
             # (a scalar placeholder) the second path no longer exists, which must be reported
             inner = r.choice([q for q in cand if q[1].startswith(fp + '/')])
             ph = r.choice([x for x in docs.PLACEHOLDERS if x[0] not in '{['])
             steps.append((docs.any_matcher([gp, inner[0]], ph), None, None, True))
-        elif k < 0.55:
+        elif k < 0.60:
             ph = r.choice(docs.PLACEHOLDERS)
-            steps.append((docs.any_matcher([gp], ph), fp, json.loads(ph), False))
+            steps.append((docs.any_matcher([gp], ph), [fp], json.loads(ph), False))
             set_path(cur, fp, json.loads(ph))
-        elif k < 0.65 and docs.go_type(v):
-            steps.append((docs.type_matcher([gp], docs.go_type(v)), fp, docs.type_placeholder(v), False))
+        elif k < 0.68 and docs.go_type(v):
+            steps.append((docs.type_matcher([gp], docs.go_type(v)), [fp], docs.type_placeholder(v), False))
             set_path(cur, fp, docs.type_placeholder(v))
-        elif k < 0.75 and docs.go_type(v) and docs.go_type(v) != 'string':
+        elif k < 0.76 and docs.go_type(v) and docs.go_type(v) != 'string':
             # paths of one matcher take effect left to right: the second `gp` finds the string
             # placeholder written by the first, so a type error must be reported
             steps.append((docs.type_matcher([gp, gp], docs.go_type(v)), None, None, True))
         elif k < 0.9:
             ph = r.choice(docs.PLACEHOLDERS)
-            steps.append((docs.custom_matcher(gp, True, ph), fp, json.loads(ph), False))
+            steps.append((docs.custom_matcher(gp, True, ph), [fp], json.loads(ph), False))
             set_path(cur, fp, json.loads(ph))
         else:
             steps.append((docs.any_matcher(['definitely.missing'], None, True), None, None, True))
+    return d, steps, cur, lenient_first
+
+
+def pruned(g, d, prefer):
+    """another document of the same family: some object members are absent"""
+    r = g.r
+    v = json.loads(json.dumps(d.value))
+    cands = [p[1] for p in d.paths]
+    r.shuffle(cands)
+    for fp in [x for x in prefer if r.random() < 0.8] + cands[:r.randint(0, 2)]:
+        try:
+            del_path(v, fp)
+        except (KeyError, IndexError, TypeError, ValueError):
+            pass
+    return v
+
+
+def make_world(g, tag):
+    r = g.r
+    d, steps, _, lenient_first = build_steps(g)
     w = World(tag)
     text = d.text().encode()
 
@@ -76,7 +141,7 @@ def make_world(g, tag):
         parts = raw.split(' ')[1:]
         if len(parts) != len(steps):
             return 'expected %d matcher results' % len(steps)
-        for (mt, fp, newv, wanterr), part in zip(steps, parts):
+        for (mt, fps, newv, wanterr), part in zip(steps, parts):
             f = dict(x.split(':', 1) for x in part.split('|'))
             errs = [e for e in f['errs'].split('+') if e]
             if f['mut'] != '0':
@@ -87,26 +152,115 @@ def make_world(g, tag):
                     return 'a missing path was not reported'
                 continue
             fb, fa = parse_flat(f['fb']), parse_flat(f['fa'])
-            if not any(p == fp or p.startswith(fp + '/') for p, _ in fb):
-                # an earlier matcher was not applied as expected (reported at that step)
-                ww.flags.add('desync')
-                return 'the document no longer has the path %s (an earlier replacement did not happen)' % fp
+            for fp in fps:
+                if not any(p == fp or p.startswith(fp + '/') for p, _ in fb):
+                    # an earlier matcher was not applied as expected (reported at that step)
+                    ww.flags.add('desync')
+                    return 'the document no longer has the path %s (an earlier replacement did not happen)' % fp
             if not errs and any(l.startswith('!') for _, l in fa):
                 return 'the matcher output is not a valid document: %r' % [l for _, l in fa if l.startswith('!')][:1]
             if errs:
                 return 'unexpected matcher error for an existing path: %r' % bytes.fromhex(errs[0].split('~')[2]).decode('utf-8', 'replace')
-            want = replace_subtree(fb, fp, flatten(newv, fp))
+            want = fb
+            for fp in fps:
+                want = replace_subtree(want, fp, flatten(newv, fp))
             if fa != want:
                 diff = [(a, b) for a, b in zip(fa, want) if a != b][:2]
                 if isinstance(newv, str) and any(ord(ch) > 126 or ch in '"\\' for ch in newv):
                     ww.flags.add('D13')
-                return 'output differs from the input with exactly %s replaced; first differences (got, want): %r' % (fp, diff or (len(fa), len(want)))
+                return 'output differs from the input with exactly %s replaced; first differences (got, want): %r' % (fps, diff or (len(fa), len(want)))
         return None
-    w.add('mdoc json %s %s' % (hx(text), ' '.join(s[0] for s in steps)), ('only-target-replaced', oracle))
+
+    def untouched(line, raw, ww):
+        for part in raw.split(' ')[1:]:
+            f = dict(x.split(':', 1) for x in part.split('|'))
+            if f['mut'] != '0':
+                ww.flags.add('D2')
+                return 'the bytes passed by the caller were modified'
+        return None
+    toks = ' '.join(s[0] for s in steps)
+    if r.random() < 0.4:
+        # the same matcher VALUES (the harness caches them per world) first see ANOTHER document, in which
+        # some of their paths do not exist: a matcher keeps no state between documents
+        other = g.json_text(pruned(g, d, lenient_first)).encode()
+        w.add('mdoc json %s %s' % (hx(other), toks), ('callers-bytes-untouched', untouched))
+    w.add('mdoc json %s %s' % (hx(text), toks), ('only-target-replaced', oracle))
     if r.random() < 0.5:
-        # the same matcher VALUES (the harness caches them per world) applied to the same document
-        # again: a matcher keeps no state between documents
-        w.add('mdoc json %s %s' % (hx(text), ' '.join(s[0] for s in steps)), ('only-target-replaced-second-use', oracle))
+        # the same matcher values applied to the same document again
+        w.add('mdoc json %s %s' % (hx(text), toks), ('only-target-replaced-second-use', oracle))
+    return w
+
+
+WS_HEAD = ['', '', '\n', ' \n\t', '  ']
+WS_TAIL = ['', '\n', '\n', '\n\n', ' ', '\r\n']
+
+
+def entry_world(g, tag):
+    """The same documents and matcher sequences through the ENTRY POINTS (snaps.MatchJSON /
+    MatchStandaloneJSON, package level and through a Config): the caller's []byte - handed over with
+    insignificant whitespace, indentation and a final newline, as an http body or a file would be - is
+    inspected after the call; the stored document is the input with exactly the targets replaced; a
+    second execution with the same bytes and the same matcher values passes silently."""
+    r = g.r
+    d, steps, cur, _ = build_steps(g)
+    kind = r.choice(['json', 'json', 'sajson'])
+    form = r.choice(['b', 'b', 'b', 's', 'v'])
+    text = (r.choice(WS_HEAD) + d.text() + r.choice(WS_TAIL)).encode()
+    toks = docs.maybe_wrap(r, [s[0] for s in steps], 0.15)
+    failing = any(s[3] for s in steps)
+    w = World(tag)
+    w.add(mode_line(False, ''))
+    w.add(cfg_line(1, 'snaps'))
+
+    def exp_first(line, raw, ww):
+        ks = [k for k, _ in line.events]
+        if 'X' in ks:
+            return 'the []byte passed by the caller was modified by the call (matchers %s)' % ' '.join(toks)
+        if failing:
+            if ks != ['E'] or line.writes or line.removed:
+                return 'a failing matcher must give one failure and no write, got %r w=%r' % ([(k, x[:40]) for k, x in line.events], line.writes)
+            return None
+        if ks != ['L'] or not line.events[0][1].endswith(b'added') or len(line.writes) != 1:
+            return 'expected the snapshot to be recorded, got %r w=%r' % ([(k, x[:60]) for k, x in line.events], line.writes)
+        return None
+
+    def exp_second(line, raw, ww):
+        ks = [k for k, _ in line.events]
+        if 'X' in ks:
+            return 'the []byte passed by the caller was modified by the call (second execution)'
+        if failing:
+            return None if ks == ['E'] and not line.writes else 'a failing matcher must give one failure and no write (second execution)'
+        if ks or line.writes or line.removed:
+            return 'the same bytes through the same matcher values no longer pass: %r' % [(k, x[:80]) for k, x in line.events]
+        return None
+
+    def exp_stored(line, raw, ww):
+        fs = parse_fs(raw)
+        if failing:
+            return None if not fs else 'a call with failing matchers left files behind: %r' % sorted(fs)
+        if len(fs) != 1:
+            return 'expected exactly one snapshot file, found %r' % sorted(fs)
+        body = list(fs.values())[0]
+        if kind == 'json':
+            ents = parse_snap(body)
+            if not ents or len(ents) != 1:
+                return 'snapshot file not well formed'
+            body = ents[0][1]
+        try:
+            got = json.loads(body.decode())
+        except Exception as e:
+            return 'stored text is not valid JSON: %s' % e
+        if got != cur:
+            return 'the stored document is not the input with exactly the targeted values replaced'
+        return None
+    op = '%s 1 %%d %s %s %s' % (kind, form, hx(text), ' '.join(toks))
+    w.add('begin 1 %s' % hx(b'TestEntry'))
+    w.add(op % 1, ('entry-callers-bytes-and-result', exp_first))
+    w.add('end 1')
+    w.add('begin 2 %s' % hx(b'TestEntry'))
+    w.add(op % 2, ('entry-second-execution', exp_second))
+    w.add('end 2')
+    w.add('fsdump', ('entry-stored-document', exp_stored))
     return w
 
 
@@ -144,12 +298,22 @@ def yaml_world(g, tag):
     text = '\n'.join(lines) + ('\n' if r.random() < 0.7 else '')
     tk = r.choice(sorted(vals))
     ypath, fp = vals[tk]
-    ph = r.choice(['"<Any value>"', '"x"', '"longer placeholder text"', 'true'])
+    pool = list(docs.YAML_TRICKY_STRINGS) + (docs.YAML_DEFECT_STRINGS if os.environ.get('VERIF_YAML_DEFECT_STRINGS') else [])
+    if r.random() < 0.5:
+        # a replacement STRING that would be something else (a number, a bool, null, a mapping, a comment,
+        # nothing at all) if it were written into the document bare
+        ph = json.dumps(r.choice(pool))
+    else:
+        ph = r.choice(['"<Any value>"', '"x"', '"longer placeholder text"', 'true'])
     phv = json.loads(ph)
     lit = ('string:' + phv) if isinstance(phv, str) else 'bool:true'
+    # the replacement comes from Any's placeholder or from a Custom callback
+    mt = docs.any_matcher([ypath], ph) if r.random() < 0.6 else docs.custom_matcher(ypath, True, ph)
     w = World(tag)
 
     def oracle(line, raw, ww):
+        if not raw.startswith('mdoc '):
+            return 'the matcher did not return (%s)' % core.unhx(raw.split(':', 1)[1] if ':' in raw else '').decode('utf-8', 'replace')[:120]
         part = raw.split(' ')[1]
         f = dict(x.split(':', 1) for x in part.split('|'))
         if f['mut'] != '0':
@@ -159,12 +323,37 @@ def yaml_world(g, tag):
         fb, fa = parse_flat(f['fb']), parse_flat(f['fa'])
         want = replace_subtree(fb, fp, [(fp, lit)])
         if fa != want:
-            return 'YAML output differs from the input with exactly %s replaced: %r' % (fp, [(a, b) for a, b in zip(fa, want or []) if a != b][:2])
+            return 'YAML output differs from the input with exactly %s replaced by %s: %r' % (fp, lit, [(a, b) for a, b in zip(fa, want or []) if a != b][:2] or (len(fa), len(want or [])))
         out = core.unhx(f['out'])
         if out.endswith(b'\n') != text.endswith('\n'):
             return 'final newline not preserved'
         return None
-    w.add('mdoc yaml %s %s' % (hx(text), docs.any_matcher([ypath], ph)), ('yaml-only-target-replaced', oracle))
+    w.add('mdoc yaml %s %s' % (hx(text), mt), ('yaml-only-target-replaced', oracle))
+    if r.random() < 0.3:
+        w.add('mdoc yaml %s %s' % (hx(text), mt), ('yaml-only-target-replaced-second-use', oracle))
+    if r.random() < 0.5:
+        # the same document and matcher through snaps.MatchYAML with the caller's []byte
+        def exp_entry(line, raw, ww):
+            ks = [k for k, _ in line.events]
+            if 'X' in ks:
+                return 'the []byte passed by the caller was modified by MatchYAML'
+            if ks != ['L'] or len(line.writes) != 1:
+                return 'expected the YAML snapshot to be recorded, got %r' % [(k, x[:60]) for k, x in line.events]
+            return None
+
+        def exp_again(line, raw, ww):
+            ks = [k for k, _ in line.events]
+            if ks or line.writes:
+                return 'the same bytes through the same matcher value no longer pass: %r' % [(k, x[:80]) for k, x in line.events]
+            return None
+        w.add(mode_line(False, ''))
+        w.add(cfg_line(1, 'snaps'))
+        w.add('begin 1 %s' % hx(b'TestYEntry'))
+        w.add('yaml 1 1 %s %s %s' % (r.choice(['b', 'b', 's']), hx(text), mt), ('yaml-entry-callers-bytes', exp_entry))
+        w.add('end 1')
+        w.add('begin 2 %s' % hx(b'TestYEntry'))
+        w.add('yaml 1 2 b %s %s' % (hx(text), mt), ('yaml-entry-second-execution', exp_again))
+        w.add('end 2')
     return w
 
 
@@ -231,9 +420,12 @@ def yaml_fixed_worlds():
 
 def run(ctx):
     g = Gen(ctx.seed * 1000003 + 15)
+    docs.STYLE = g.r
     n = 400 if ctx.tier == 'quick' else 12000
     worlds = [make_world(g, 'c15-%d' % i) for i in range(n)]
-    worlds += [yaml_world(g, 'c15y-%d' % i) for i in range(n // 4)]
+    worlds += [yaml_world(g, 'c15y-%d' % i) for i in range(n // 2)]
     worlds += yaml_fixed_worlds()
     run_suite(ctx, 'matchers.direct', worlds, known=known, use_model=False, chunk=1000)
+    worlds = [entry_world(g, 'c15e-%d' % i) for i in range(n // 2)]
+    run_suite(ctx, 'matchers.entrypoints', worlds, known=known, chunk=500)
     findings.report(ctx, 'C15')
